@@ -207,7 +207,9 @@ def run_case(case):
 @st.composite
 def depth_case(draw, tier):
     return {'n': draw(st.integers(20, 50)), 'src_work': [draw(st.sampled_from([3, 5, 10]))], 'cons_work': [draw(st.sampled_from([30, 60, 120, 250]))],
-            'relay': draw(st.booleans()), 'net': draw(scen.net_strategy(classes=('fast', 'lan', 'sub_poll'), max_drops=0)), 'ipc': draw(st.booleans())}
+            'relay': draw(st.booleans()),
+            # the consumer joins the stream with a second, slower, independent source: it cannot take frames faster than that source delivers
+            'join_ms': draw(st.sampled_from([None, None, 150, 300, 800])), 'net': draw(scen.net_strategy(classes=('fast', 'lan', 'sub_poll'), max_drops=0)), 'ipc': draw(st.booleans())}
 
 
 def run_depth(case):
@@ -219,6 +221,11 @@ def run_depth(case):
         if case['relay']:
             nodes.append({'id': 'R', 'sources': ['S'], 'beh': {'kind': 'xf', 'work': [0]}, 'required': ['C']})
         nodes.append({'id': 'C', 'sources': ['R' if case['relay'] else 'S'], 'nout': 0, 'beh': {'kind': 'sink', 'work': case['cons_work']}})
+        if case.get('join_ms'):
+            n = max(8, n // 3)
+            nodes[0]['beh']['n'] = 100000
+            nodes.append({'id': 'B', 'beh': {'kind': 'src', 'n': n, 'work': [case['join_ms']], 'topics': ['other']}, 'required': ['C']})
+            nodes[-2]['sources'] = nodes[-2]['sources'] + ['B']
         p = harness.Pipeline(nodes, net=case['net'], seed=4, ipc=case.get('ipc', False))
         depth = {'max': 0}
 
@@ -238,17 +245,19 @@ def run_depth(case):
         p.hooks = hook
         try:
             p.start_all()
-            p.run(n * (case['cons_work'][0] + 40) + 5000, stop=lambda: len(p.process_calls('C')) >= n)
+            p.run(n * (case['cons_work'][0] + 40 + (case.get('join_ms') or 0)) + 5000, stop=lambda: len(p.process_calls('C')) >= n)
             got = len(p.process_calls('C'))
         finally:
             p.finish()
         out[mult] = (depth['max'], got, n)
+    jn = case.get('join_ms')
     for mult, (d, got, n) in out.items():
         if d > BOUND:
-            return bad(f'{d} sets were queued towards a slow synchronized consumer (run of {n} frames)', 'queue-depth', [], out)
+            return bad(f'{d} sets were queued towards a ' + (f'synchronized consumer that joins this source with a slower one ({jn} ms per frame)' if jn else 'slow synchronized consumer') +
+                       f' (run of {n} frames)', 'join-queue-depth' if jn else 'queue-depth', [], out)
     if out[4][0] > max(out[1][0], 2) + 2:
-        return bad(f'queue depth grows with the run length: {out[1][0]} for {out[1][2]} frames, {out[4][0]} for {out[4][2]} frames', 'queue-depth-grows', [], out)
-    return ok(out[1][1] >= 10, [f'max depth {out[4][0]}'], {'depth_N': out[1][0], 'depth_4N': out[4][0], 'frames': [out[1][1], out[4][1]]})
+        return bad(f'queue depth grows with the run length: {out[1][0]} for {out[1][2]} frames, {out[4][0]} for {out[4][2]} frames', 'join-queue-depth-grows' if jn else 'queue-depth-grows', [], out)
+    return ok(out[1][1] >= 8, [f'max depth {out[4][0]}'] + (['consumer joins a slower second source'] if case.get('join_ms') else []), {'depth_N': out[1][0], 'depth_4N': out[4][0], 'frames': [out[1][1], out[4][1]]})
 
 
 PARTS = [
